@@ -19,7 +19,8 @@ func AnyToInt64(value any) int64 {
 		return int64(v)
 	}
 
-	return value.(int64)
+	// not a number: there is nothing sensible to convert
+	return 0
 }
 
 func ToPtr[T any](v T) *T {
